@@ -21,13 +21,14 @@ if not ok:
     sys.exit(1)
 dst = os.path.join("/verif/seeded", name)
 os.makedirs(dst, exist_ok=True)
-for f in ("patch.diff", "seed_demo.rs", "NOTES.md"):
+demo = "seed_demo.rs" if os.path.exists(os.path.join(wt, "seed", "seed_demo.rs")) else "seed_demo.py"
+for f in ("patch.diff", demo, "NOTES.md"):
     shutil.copy(os.path.join(wt, "seed", f), os.path.join(dst, f))
 base = subprocess.run(["git", "-C", "/repo", "rev-parse", "--short", "HEAD"], capture_output=True, text=True).stdout.strip()
 meta = dict(property=prop, change=change, needs_to_manifest=needs,
             confirmed=dict(suite_with_patch="%s passed %s failed (42 tests + 3 doctests) via tools/confirm_seed.sh" % (sp, sf),
                            demo_with_patch="FAILED" if "FAILED" in dw else dw, demo_without_patch="ok"),
-            commands=["tools/confirm_seed.sh <scratch worktree> (git apply patch; cargo test --offline; cargo test --offline --test seed_demo; git apply -R; cargo test --offline --test seed_demo)",
+            commands=["tools/confirm_seed_py.sh <scratch worktree> (python demo against the built extension)" if demo.endswith(".py") else "tools/confirm_seed.sh <scratch worktree> (git apply patch; cargo test --offline; cargo test --offline --test seed_demo; git apply -R; cargo test --offline --test seed_demo)",
                       "tools/corpus.py --only %s" % name.split("-")[0]],
             source="independent sub-agent given only the property text and a scratch worktree", base_commit=base)
 json.dump(meta, open(os.path.join(dst, "meta.json"), "w"), indent=1)
